@@ -145,10 +145,7 @@ static MPT_STRUCT(buffer) *_mpt_buffer_alloc_detach(MPT_STRUCT(buffer) *ptr, siz
 		size_t add = buf->buf._used;
 		if (add > len) {
 			void (*fini)(void *);
-			if (!traits) {
-				add = len;
-			}
-			else if ((fini = traits->fini)) {
+			if (traits && (fini = traits->fini)) {
 				uint8_t *ptr = (void *) (buf + 1);
 				size_t pos, esize = traits->size;
 				/* align used data */
@@ -158,8 +155,9 @@ static MPT_STRUCT(buffer) *_mpt_buffer_alloc_detach(MPT_STRUCT(buffer) *ptr, siz
 				for (pos = len; pos < add; pos += esize) {
 					fini(ptr + pos);
 				}
-				add = len;
 			}
+			/* new size limits moved content */
+			add = len;
 		}
 		/* copy remaining data to new location */
 		if (add) {
